@@ -241,6 +241,7 @@ func init() {
 		Run: func(c *Case) {
 			if c.Idx == 0 {
 				c18Matrix(c)
+				round8Hand(c, "C18")
 			} else {
 				c18Random(c)
 			}
